@@ -66,6 +66,17 @@ theorem viable_train {cfg : Cfg} {train : List (String × Row)} {dev : Option (L
     · simp only [Viab.viable, Bool.and_eq_true] at h
       exact ⟨h.1.1, h.1.2⟩
 
+/-- an oracle answer is only used where the rank test is open: a passed test is always a possible one -/
+theorem resolveRanks_possible {cfg : Cfg} {gt gd : List (String × Row)} (h : (resolveRanks cfg gt gd).1 = true) :
+    ranksPossible gt gd = true := by
+  unfold resolveRanks at h
+  dsimp only at h
+  split at h
+  · rename_i hc
+    simp only [Bool.and_eq_true] at hc
+    exact hc.1
+  · exact h
+
 /-- **Dev robustness.** A viable combination tested against a dev sample satisfies on it the
     frequency bound, has distinct consecutive rates, and ranks the groups compatibly with train. -/
 theorem viable_dev {cfg : Cfg} {train d : List (String × Row)} {comb : List (List String)}
@@ -81,7 +92,7 @@ theorem viable_dev {cfg : Cfg} {train d : List (String × Row)} {comb : List (Li
     simp_all
   · simp only [Viab.viable, Bool.and_eq_true, Bool.not_true, Bool.false_or] at h
     obtain ⟨_, ⟨hr, hm⟩, hd⟩ := h
-    exact ⟨hm, hd, hr⟩
+    exact ⟨hm, hd, resolveRanks_possible hr⟩
 
 /-- **Every group of the fitted grouping holds at least `min_freq_mod` of the rows** of the
     table the search ran on (non-missing rows in stage 1, all rows in stage 2). -/
